@@ -364,17 +364,22 @@ EXTRAS = [
     ["if", "f", [["s"]], None],
     ["for", "i", "ys", [["s"], ["t", ";"]]],
     ["if", "g", [["t", "+g"]], [["s"]]],
+    ["v", "j"],  # the loop variable of a `for j in ys` around the block tag (nested blocks), else undefined
+    ["v", "j"],
 ]
 
 
 @st.composite
-def rand_template(draw: Any, tidx: int, depth: int, names: str, mark: str, tname: str, *, rich: bool = True) -> dict[str, Any]:
+def rand_template(draw: Any, tidx: int, depth: int, names: str, mark: str, tname: str, *, rich: bool = True,
+                  pre_text: bool = True) -> dict[str, Any]:
     is_base = tidx == depth - 1
     subset = [n for n in names if draw(st.integers(0, 9)) < (7 if is_base else 5)]
     order = draw(st.permutations(subset)) if subset else []
     parent: dict[str, str] = {}
     for i, n in enumerate(order):
         parent[n] = draw(st.sampled_from(order[:i])) if i and draw(st.integers(0, 9)) < 4 else ""
+
+    caps = [0]
 
     def block(name: str) -> list[Any]:
         body: list[Any] = [["t", f"[{mark}{tidx}.{name}]"]]
@@ -386,11 +391,14 @@ def rand_template(draw: Any, tidx: int, depth: int, names: str, mark: str, tname
         for kid in order:
             if parent[kid] == name:
                 kb = block(kid)
-                w = draw(st.integers(0, 9)) if rich else 0
+                w = draw(st.integers(0, 11)) if rich else 0
                 if w == 8:
                     body.append(["if", "g", [kb], None])
-                elif w == 9:
+                elif w in (9, 10):
                     body.append(["for", "j", "ys", [["t", "(j"], kb, ["t", "j)"]]])
+                elif w == 11:
+                    caps[0] += 1
+                    body.append(["cap", f"c{mark}{tidx}x{caps[0]}", [["t", "(c"], kb, ["t", "c)"]]])
                 else:
                     body.append(kb)
         body.append(["t", f"[/{name}]"])
@@ -401,16 +409,26 @@ def rand_template(draw: Any, tidx: int, depth: int, names: str, mark: str, tname
     body: list[Any] = [["t", "<" if is_base else f"[{mark}{tidx}.out]"]]
     for n in order:
         if parent[n] == "":
-            body.append(block(n))
+            blk = block(n)
+            w = draw(st.integers(0, 9)) if rich else 0
+            if w == 8:
+                blk = ["for", "j", "ys", [["t", "(J"], blk, ["t", "J)"]]]
+            elif w == 9:
+                caps[0] += 1
+                blk = ["cap", f"c{mark}{tidx}y{caps[0]}", [blk]]
+            body.append(blk)
             body.append(["t", "|" if is_base else f"[{mark}{tidx}.mid]"])
     if is_base and rich and draw(st.integers(0, 4)) == 0:
         body.append(["v", "u"])
     body.append(["t", ">" if is_base else f"[{mark}{tidx}.end]"])
-    return {"extends": None if is_base else f"{tname}{tidx + 1}", "body": body}
+    tmpl = {"extends": None if is_base else f"{tname}{tidx + 1}", "body": body}
+    if not is_base and rich and pre_text and draw(st.integers(0, 5)) == 0:
+        tmpl["pre"] = draw(st.sampled_from(["pre ", "\n", "x{{ u }}", " "]))
+    return tmpl
 
 
 @st.composite
-def random_case(draw: Any, no_include_nest: bool) -> dict[str, Any]:
+def random_case(draw: Any, no_include_nest: bool, pre_text: bool = True) -> dict[str, Any]:
     depth = draw(st.integers(1, 7))
     names = NAMES[: draw(st.integers(1, 6))]
     data = {
@@ -423,7 +441,7 @@ def random_case(draw: Any, no_include_nest: bool) -> dict[str, Any]:
     }
     templates = {}
     for i in range(depth):
-        templates[f"t{i}"] = draw(rand_template(i, depth, names, "T", "t"))
+        templates[f"t{i}"] = draw(rand_template(i, depth, names, "T", "t", pre_text=pre_text))
     case = {"kind": "model", "fam": "random", "templates": templates, "entry": "t0", "data": data}
 
     if draw(st.integers(0, 9)) < 4:
@@ -431,9 +449,10 @@ def random_case(draw: Any, no_include_nest: bool) -> dict[str, Any]:
         shared = draw(st.booleans())
         hosts = [(tn, bi) for tn in sorted(templates) for bi in range(len(scan(templates[tn])[1]))]
         if hosts:
-            inner_depth = draw(st.integers(2, 3))
+            inner_depth = draw(st.integers(1, 3))  # 1: a plain partial that has blocks of its own
             inner_names = names[: draw(st.integers(1, len(names)))] if shared else INNER_DISJOINT[: draw(st.integers(1, 3))]
-            inner = {f"n{i}": draw(rand_template(i, inner_depth, inner_names, "N", "n")) for i in range(inner_depth)}
+            inner = {f"n{i}": draw(rand_template(i, inner_depth, inner_names, "N", "n", pre_text=pre_text))
+                     for i in range(inner_depth)}
             # prefer a host whose body is rendered on the page of the outer chain
             _k, _w, outer_info = resolve(templates, "t0", data)
             live = [(t, i) for (t, i) in hosts if (t, scan(templates[t])[1][i][1]) in outer_info.rendered_defs]
@@ -466,6 +485,8 @@ def _partial_shape(templates: dict[str, Any]) -> tuple[str, str] | None:
                 walk(n[3])
             elif n[0] == "for":
                 walk(n[3])
+            elif n[0] == "cap":
+                walk(n[2])
             elif n[0] == "if":
                 walk(n[2])
                 if n[3] is not None:
@@ -546,7 +567,7 @@ class C08(Prop):
         return 240 if tier == "quick" else 3000
 
     def strategy(self, tier: str, disabled: frozenset[str]):
-        return random_case("nested-chain" in disabled)
+        return random_case("nested-chain" in disabled, "pre-extends-text" not in disabled)
 
     def enumerate(self, tier: str, disabled: frozenset[str]):
         seed = int(os.environ.get("VERIF_SEED", "1") or "1")
@@ -664,6 +685,8 @@ class C08(Prop):
         res.nontrivial = bool(info.shared_names or info.super_used or info.nested_override
                               or (kind == "err" and want != "recursive"))
 
+        has_pre = any(t.get("pre") for t in templates.values())
+
         # ---- verdict per mode
         problems: dict[str, tuple[str, list[str], str]] = {}  # bucket -> (oracle, modes, detail)
 
@@ -689,7 +712,11 @@ class C08(Prop):
                 continue
             if kind_m == "ok":
                 if g_kind == "ok":
-                    if g_val != want_m and own:
+                    if g_val != want_m and has_pre and g_val == self._alt_pre(templates, mode, entry, data):
+                        add("text-before-extends-rendered", "resolution", mode,
+                            f"text in front of `extends` in a child template was output: expected {want_m!r}, "
+                            f"got {g_val!r}")
+                    elif g_val != want_m and own:
                         add("output-mismatch:cached-history", "resolution", mode,
                             f"after the entry was rendered on the same caching environment: expected {want_m!r}, got {g_val!r}")
                     elif g_val != want_m:
@@ -737,11 +764,18 @@ class C08(Prop):
         for bucket, (oracle, modes, detail) in sorted(problems.items()):
             expect = repr(want) if kind == "ok" else f"error {want}"
             text = f"modes={','.join(modes)} expected {expect}; {detail}; entry={entry} data={data} sources={srcs}"
-            if nested_active and shape is not None:
+            if nested_active and shape is not None and bucket != "text-before-extends-rendered":
                 res.fail(f"{oracle}:{bucket}", f"nested-chain:{shape[0]}:{shape[1]}", text)
             else:
                 res.fail(oracle, bucket, text)
         return res
+
+    @staticmethod
+    def _alt_pre(templates: dict[str, Any], mode: str, entry: str, data: dict[str, Any]) -> Any:
+        """The page under the other reading (text in front of `extends` is output), for attribution only."""
+        name = mode.split("then:", 1)[1] if "then:" in mode else entry
+        alt = resolve(templates, name, data, render_pre=True)
+        return alt[1] if alt[0] == "ok" else None
 
     def sample(self, case: Any) -> Any:
         if case["kind"] == "enum":
